@@ -438,6 +438,15 @@ def gen_cases(tier, seed):
             l = [rng.choice([1, -1]) * rng.randrange(1, 5) for _k in range(rng.randrange(1, 6))]
             r = [rng.choice([1, -1]) * rng.randrange(1, 5) for _k in range(rng.randrange(1, 4))]
             cases.append((f'MC [{",".join(map(str, l))}] [{",".join(map(str, r))}]', 'merge'))
+            cases.append((f'SC [{",".join(map(str, c))}] {x}', 'simplify_pf'))
+            t = [rng.choice([1, -1]) * rng.randrange(1, 5) for _k in range(rng.randrange(0, 4))]
+            y = rng.randrange(1, 5)
+            t.insert(rng.randrange(len(t) + 1), y)
+            t.insert(rng.randrange(len(t) + 1), -y)
+            cases.append((f'TC [{",".join(map(str, t))}]', 'trivial_pf'))
+            n = rng.randrange(1, 8)
+            ps = sorted(rng.sample(range(n), rng.randrange(0, n + 1)))
+            cases.append((f'OM [{",".join(map(str, ps))}] {n}', 'move_to_front'))
     return cases
 
 
@@ -702,7 +711,7 @@ def replay(path):
         return 0
     ok, log, mlref = build_model()
     print('implementation :', run_impl([line], timeout_case=120)[0])
-    if ok and line.split()[0] in ('P', 'N', 'C', 'L', 'R', 'V', 'S', 'MC'):
+    if ok and line.split()[0] in ('P', 'N', 'C', 'L', 'R', 'V', 'S', 'MC', 'SC', 'TC', 'OM'):
         print('model (sound)  :', C.run_lines(mlref, [line])[0])
         print('model (pinned) :', C.run_lines(mlref, [line], args=('--pinned',))[0])
     if line[0] in 'PQO':
